@@ -4,7 +4,7 @@ Only property theorems, non-vacuity examples and the axiom audit live here.
 Model: PcModel/Iter.lean (iterator.cpp, IteratorHelper.cpp, iterator.hpp, PrimeGenerator.cpp table path, nthPrime.cpp,
 ParallelSieve.cpp, PrimeSieve.cpp, StorePrimes.hpp). Proofs: PcProofs/Iter*.lean.
 -/
-import PcProofs.IterRefine
+import PcProofs.IterRefine2
 
 namespace Pc.C18
 open Pc.It
@@ -80,6 +80,41 @@ example (fl : Floats) (batch : ℕ → ℕ) : GenSpec (refEnv fl batch) := refEn
 example : FwdReady (init 100 umax) 100 := fwdReady_init 100 umax (by decide)
 example : ∃ p, p.Prime ∧ 100 ≤ p ∧ p ≤ umax := ⟨101, by norm_num, by decide, by decide⟩
 
+/-- `generate_prev_primes()` (the `do … while (!size_)` loop of iterator.cpp:176-187) on an iterator without live generator,
+    for EVERY stop hint, EVERY float outcome and EVERY core meeting `GenSpec`: it TERMINATES and leaves a non-empty, strictly
+    increasing buffer with `i_ = size_` that holds exactly the primes of `[start_, stop]` plus the leading 0 iff `start_ <= 2`;
+    the windows tried on the way were contiguous downwards: no prime of `(stop, t]` exists, where `t` is the top it had to
+    continue from (`start_` right after construction / `jump_to`, else `start_ - 1`, saturating at 0) -/
+theorem generate_prev_primes_correct (e : Env) (he : GenSpec e) (s : St) (hgen : s.mem.gen = none) (hs : s.start ≤ umax) :
+    ∃ s', genPrev e bigFuel s = .ok s' ∧ BwdDone s s' (prevTop s) := genPrev_none e he s hgen hs
+
+/-- `direction_change` forward → backward (iterator.cpp:167-172 `start_ = primes.front()`): with a live generator and the
+    buffer `p :: rest`, `generate_prev_primes()` continues exactly below `p` — whatever part of the forward window the
+    generator had already delivered -/
+theorem direction_change_fwd_bwd (e : Env) (he : GenSpec e) (s : St) (g : Gen) (p : ℕ) (rest : List ℕ)
+    (hgen : s.mem.gen = some g) (hbuf : s.buf = p :: rest) (hincl : s.mem.incl = false) (hp : p ≤ umax) :
+    ∃ s', genPrev e bigFuel s = .ok s' ∧ s'.hint = s.hint ∧
+      BwdDone { s with start := p, mem := { s.mem with gen := none } } s' (p - 1) := genPrev_some e he s g p rest hgen hbuf hincl hp
+
+/-- `direction_change` backward → forward: after `generate_prev_primes()` the iterator is ready to continue the forward
+    enumeration right above the window it holds (`stop + 1`), and no prime lies between the buffer and that point -/
+theorem direction_change_bwd_fwd (s s' : St) (t : ℕ) (hd : BwdDone s s' t) (ht : t < umax) :
+    FwdReady s' (s'.mem.stop + 1) ∧ ∀ q, q.Prime → s'.start ≤ q → q ≤ s'.mem.stop → q ∈ s'.buf := by
+  have h1 := hd.stop_le
+  refine ⟨⟨by omega, Or.inl ⟨hd.gen, ?_⟩⟩, fun q hq h2 h3 => (hd.mem q).2 (Or.inl ⟨hq, h2, h3⟩)⟩
+  rw [hd.incl]; simp only [Bool.false_eq_true, if_false]
+  exact checkedAdd_one _ (by omega)
+
+/-- `prev_yields_primes_le_start`, first call (`_partial`: the k-th call for k > 1 follows from
+    `generate_prev_primes_correct` + the buffer invariant but is not assembled into one statement yet): the first
+    `prev_prime()` of a fresh / repositioned iterator returns the largest prime `<= start`, and 0 when there is none -/
+theorem prev_first_partial (e : Env) (he : GenSpec e) (start hint : ℕ) (hs : start ≤ umax) :
+    ∃ s', prevPrime e (init start hint) = .ok (Nat.findGreatest Nat.Prime start, s') := prevPrime_init e he start hint hs
+
+example : (init 100 5).mem.gen = none := rfl
+example : ((run (refEnv ⟨fun _ => 0, fun _ => 0, fun _ => 0, fun _ => 0⟩ (fun _ => 1)) (init 10 0) [.prev, .prev, .next]).1) = [7, 5, 7] := by
+  decide +kernel
+
 end Pc.C18
 
 #print axioms Pc.C18.checkedAdd_saturates
@@ -90,3 +125,7 @@ end Pc.C18
 #print axioms Pc.C18.generate_next_primes_correct
 #print axioms Pc.C18.generate_next_primes_past_the_end
 #print axioms Pc.C18.buffer_contract_first
+#print axioms Pc.C18.generate_prev_primes_correct
+#print axioms Pc.C18.direction_change_fwd_bwd
+#print axioms Pc.C18.direction_change_bwd_fwd
+#print axioms Pc.C18.prev_first_partial
